@@ -112,7 +112,9 @@ func setStructToForm(q url.Values, val reflect.Value) {
 // Unmarshal parses the url encoded data and stores the result
 // in the value pointed to by v.
 func (FormCodec) Unmarshal(data []byte, v interface{}) error {
-	form, err := url.ParseQuery(goutil.BytesToString(data))
+	// NOTE: parse a copy: the values keep referring to the parsed string, and data
+	// is usually a receive buffer that is reused for the next message.
+	form, err := url.ParseQuery(string(data))
 	if err != nil {
 		return fmt.Errorf("form codec: %s", err.Error())
 	}
